@@ -1,7 +1,7 @@
 (* Property C16 — silent skip vs DDLParserError.  Statements only; proofs are in Proofs/. *)
 From Coq Require Import String List ZArith NArith PArith Bool.
 From SDP Require Import Base PyStr LR LRProofs Lexer Actions Parse.
-From SDP Require Seq SeqProofs Entity EntityProofs Table TableProofs TableItemProofs Alter AlterProofs AlterKeyProofs.
+From SDP Require Seq SeqProofs Entity EntityProofs Table TableProofs TableItemProofs Alter AlterProofs AlterKeyProofs TypeDom TypeDomProofs.
 Import ListNotations.
 
 (* For EVERY table set, token list (any length): if the loud parser (silent=False) does not raise,
@@ -45,8 +45,8 @@ Qed.
 Print Assumptions C16_loud_raises_only_ddlparsererror.
 
 (* ---------- "supported DDL never raises under silent=False" for the statement fragments under a theorem -----------------------------
-   For every statement of the CREATE SEQUENCE, TABLESPACE / DATABASE / SCHEMA, CREATE TABLE (with table-level clauses) and
-   ALTER TABLE fragments the loud run (silent=False) does not raise and returns exactly what the silent run returns. *)
+   For every statement of the CREATE SEQUENCE, TABLESPACE / DATABASE / SCHEMA, CREATE TABLE (with table-level clauses),
+   ALTER TABLE and CREATE TYPE / DOMAIN (value list) fragments the loud run (silent=False) does not raise and returns exactly what the silent run returns. *)
 Theorem C16_sequence_loud_is_silent : forall a norm, Seq.wf a = true ->
   parse_lexemes norm false (Seq.lexemes a) = parse_lexemes norm true (Seq.lexemes a) /\
   parse_lexemes norm false (Seq.lexemes a) = Ok (Some (Seq.denote norm a)).
@@ -77,3 +77,8 @@ Theorem C16_alter_loud_is_silent : forall a norm, Alter.wf norm a = true ->
   parse_lexemes norm false (Alter.lexemes a) = Ok (Some (Alter.denote norm a)).
 Proof. intros a norm H. rewrite !(AlterKeyProofs.alter_parse a norm _ H). split; reflexivity. Qed.
 Print Assumptions C16_alter_loud_is_silent.
+Theorem C16_type_domain_loud_is_silent : forall d norm, TypeDom.wf norm d = true ->
+  parse_lexemes norm false (TypeDom.lexemes d) = parse_lexemes norm true (TypeDom.lexemes d) /\
+  parse_lexemes norm false (TypeDom.lexemes d) = Ok (Some (TypeDom.denote norm d)).
+Proof. intros d norm H. rewrite !(TypeDomProofs.typedom_parse d norm _ H). split; reflexivity. Qed.
+Print Assumptions C16_type_domain_loud_is_silent.
